@@ -67,6 +67,68 @@ def gen_opts(r, features=None, cli_safe=True, j9=False):
     return o
 
 
+DIRECTED_IMAGES = [0x00000007, 0x0000FFFF, 0x80000000, 0xFFFFFF00, 0xFFFF0000, 0xFFFFFFFE, 0x000000FF, 0xE0000005, 0xE0000012,
+                   0xE00000FB, 0x7F000001, 0xA9FE0001, 0xC0000201, 0x64400001, 0xFFFFFFFF, 0x00000000, 0x0A000001, 0xC0A80101]
+
+
+def directed_line(r):
+    """A line whose address is chosen so that its IMAGE is a special value (netmask-shaped, multicast control
+    block, loopback, ...): the original is derived at execution time by a cold twin (resolve_directed)."""
+    img = r.choice(DIRECTED_IMAGES)
+    pat = r.choice([["lit:ip route ", "X", "lit: ", "k:255.255.255.0", "lit: ", "X2"], ["lit: neighbor ", "X", "lit: remote-as 65001"],
+                    ["lit:ntp server ", "X", "lit:;"], ["lit: ip ospf neighbor ", "X"]])
+    segs = []
+    for p in pat:
+        if p.startswith("lit:"):
+            segs.append(["lit", p[4:]])
+        elif p.startswith("k:"):
+            segs.append(["k4", p[2:]])
+        elif p == "X":
+            segs.append(["a4", "", {"img": img}])
+        else:
+            segs.append(["a4", "", {"img": r.choice(DIRECTED_IMAGES)}])
+    return {"segs": segs, "eol": "\n"}
+
+
+def resolve_directed(files, opts, knobs):
+    """Fill in the originals of directed address segments: the pre-image of `img` under the run's salt and
+    options, asked of a cold twin.  Pre-images that are themselves kept tokens become `k4` segments."""
+    import copy
+    import ipaddress as _ip
+    if not any(len(s) > 2 and isinstance(s[2], dict) and "img" in s[2] and "v" not in s[2]
+               for f in files for ln in f["lines"] for s in ln["segs"]):
+        return files
+    from . import world as W
+    from .proc import SimProcess
+    files = copy.deepcopy(files)
+    p = SimProcess(dict(knobs or {}))
+    nets = [_ip.ip_network(n) for n in keep_nets(opts)]
+    with p:
+        try:
+            fa = p.af.FileAnonymizer(**W.fa_kwargs(dict(opts, ip=True, undo=False)))
+            an = fa.anonymizer4
+        except Exception:
+            an = None
+        for f in files:
+            for ln in f["lines"]:
+                for s in ln["segs"]:
+                    if len(s) > 2 and isinstance(s[2], dict) and "img" in s[2] and "v" not in s[2]:
+                        try:
+                            v = an.deanonymize(s[2]["img"])
+                        except Exception:
+                            v = None
+                        if v is None:
+                            s[0], s[1] = "lit", "192.0.2.77"[:0] + "unresolved"
+                            s[2:] = []
+                        elif G.is_mask4(v) or any(_ip.IPv4Address(v) in n for n in nets):
+                            s[0], s[1] = "k4", str(_ip.IPv4Address(v))
+                            s[2:] = []
+                        else:
+                            s[1] = str(_ip.IPv4Address(v))
+                            s[2]["v"] = v
+    return files
+
+
 def keep_nets(o):
     nets = list(o.get("pa") or [])
     if o.get("private"):
@@ -93,11 +155,34 @@ def add_words(r, o, n=None, forbidden=""):
 
 def gen_secrets(r, n, classes=None, words=()):
     """n secret identities with an `a` value and a same-shape `b` value (paired world)."""
-    classes = classes or ["text", "text", "num", "hex", "t7", "md5", "sha", "j9p", "j9p", "j9p-num", "j9p-hex", "c9"]
+    classes = classes or ["text", "text", "num", "hex", "t7", "md5", "sha", "j9p", "j9p", "j9p-num", "j9p-hex", "c9", "rwc"]
     out = {}
     used = set()
     for i in range(n):
         cls = r.choice(classes)
+        if cls == "rwc":
+            # a secret that is a reserved word except for its letter case: not reserved, must be replaced
+            free = [pr for pr in RWC_PAIRS if pr[0] not in used and pr[1] not in used]
+            if free:
+                a, b = r.choice(free)
+                if r.random() < 0.5:
+                    a, b = a.upper(), b.upper()
+                if a not in used and b not in used:
+                    used.update([a, b])
+                    out[str(i)] = {"cls": "rwc", "a": a, "b": b}
+                    continue
+            cls = "text"
+        if cls == "pseudo":
+            # a secret that looks like one of netconan's own pseudonyms
+            k = r.randint(0, 3)
+            a, b = "netconanRemoved%d" % k, "netconanRemoved%d" % (k + 4)
+            if r.random() < 0.3:
+                a, b = a.encode().hex(), b.encode().hex()
+            if a not in used and b not in used:
+                used.update([a, b])
+                out[str(i)] = {"cls": "pseudo", "a": a, "b": b}
+                continue
+            cls = "text"
         if cls == "md5":
             cls = "md5-%d" % r.randint(1, 8)
         for attempt in range(50):
@@ -123,7 +208,15 @@ def gen_secrets(r, n, classes=None, words=()):
     return out
 
 
+RWC_PAIRS = [("Router", "System"), ("Permit", "Secret"), ("Enable", "Switch"), ("Neighbor", "Password"), ("Interface", "Community"),
+             ("Private", "Network"), ("Admin", "Cisco"), ("Default", "Version")]
+
+
 def slot_class(cls):
+    if cls in ("rwc",):
+        return "text"
+    if cls == "pseudo":
+        return "text"
     if cls in ("j9p", "j9p-num", "j9p-hex", "c9"):
         return "j9"
     if cls.startswith("md5"):
